@@ -453,7 +453,19 @@ func evalChain(p ast.Position, scope *stateful.Scope, stck *stack) error {
 				// Properties set by property methods cannot be read
 				return errorf(p, "property %s of object %T cannot be read, it is set by calling %s(...)", name, l, name)
 			}
-			stck.Push(describer.Property(name))
+			// A describer of its own (a UDF node) may have properties that can only be set: reading one panics in reflection.
+			value, err := func() (v interface{}, err error) {
+				defer func() {
+					if r := recover(); r != nil {
+						err = fmt.Errorf("property %s of object %T cannot be read", name, l)
+					}
+				}()
+				return describer.Property(name), nil
+			}()
+			if err != nil {
+				return wrapError(p, err)
+			}
+			stck.Push(value)
 		} else {
 			return errorf(p, "object %T has no property %s", l, name)
 		}
